@@ -21,5 +21,6 @@ ec0e3d2 C14
 4dfa711 C12
 1ed1a66 C12
 0ec3bca C18
+13d41b4 C09
 LIST
 git -C /repo status --short | head -3
